@@ -66,6 +66,20 @@ Theorem C17_range_v : forall H recover net t a,
 Proof. exact bad_v_rejected. Qed.
 Print Assumptions C17_range_v.
 
+(* V is unbounded in the model (any size, as on the wire); acceptance fixes it
+   exactly, as an integer: every V' = V + d with d >= 2 (in particular
+   d = k*2^64, k*2^65, ...) is rejected although its low 64 bits are a valid V. *)
+Theorem C17_v_exact : forall H recover net t a,
+  sender H recover net t = SOk a -> t_v t = 35 + 2 * net \/ t_v t = 36 + 2 * net.
+Proof. exact v_exact. Qed.
+Print Assumptions C17_v_exact.
+
+Theorem C17_v_twin_rejected : forall H recover net t a d,
+  d <> 0 -> (t_v t = 35 + 2 * net + d \/ t_v t = 36 + 2 * net + d) -> 2 <= d ->
+  sender H recover net t <> SOk a.
+Proof. exact v_twin_rejected. Qed.
+Print Assumptions C17_v_twin_rejected.
+
 (* 5. A transaction is accepted under at most one network id. *)
 Theorem C17_one_network : forall H recover net net' t a a',
   sender H recover net t = SOk a -> sender H recover net' t = SOk a' -> net = net'.
